@@ -39,7 +39,7 @@ for name in sorted(os.listdir(stage)):
     what, needs = DESC.get(sid, ("", ""))
     if isinstance(what, list): what, needs = what
     meta = {"id": sid, "property": c, "change": what, "needs_to_manifest": needs,
-            "origin": "written by an independent sub-agent (round 2) given only the property text, the list of earlier changes to avoid, and a scratch worktree",
+            "origin": f"written by an independent sub-agent (round {(int(m)+off+1)//2}) given only the property text, the list of earlier changes to avoid, and a scratch worktree",
             "confirmed": {"what_was_run": "tools/confirm_seeds.sh in a scratch worktree: `cargo test -p kira --offline` with the patch; the demonstration with and without the patch", **conf},
             "detected_by": old.get("detected_by", []), "detection_notes": old.get("detection_notes", "")}
     if old.get("rebased"): meta["rebased"] = old["rebased"]
